@@ -185,6 +185,9 @@ func c15Judge(prop string, spec *PipeSpec, res *PipeResult, exps [][]Expect) []D
 func c15Run(f *Fixture, c *c15Case) []Discrepancy {
 	spec := c.Spec
 	spec.DeadAddr = fakecluster.DeadAddr()
+	// connections opened from here on count as "opened after the fault": the proxy (its once-a-second probe)
+	// may re-dial a node right after its connections were killed, before the traffic of the case starts
+	faultTime := time.Now()
 	for _, n := range c.KillConn {
 		f.Cluster.CloseDataConns(n, false)
 	}
@@ -208,7 +211,6 @@ func c15Run(f *Fixture, c *c15Case) []Discrepancy {
 		exps[i] = expectedFor(&spec.Clients[i], pi, rc)
 		want[i] = len(exps[i])
 	}
-	faultTime := time.Now()
 	res := runPipesQuiet(f, &spec, want, 5*time.Second, 0, exps)
 	for _, n := range c.Accept {
 		f.Cluster.SetAcceptClose(n, false)
